@@ -18,7 +18,7 @@ from hypothesis import strategies as st
 
 ROOT_NAMES = ["ns", "ns", "vendor", "zeta", "Alpha"]
 SUBS = ["sub", "deep", "x1", "Node", "A", "Msgs"]
-SHORTS = ["A", "B", "C", "Msg", "Zed", "a1", "Foo2", "Foo10", "Fo"]
+SHORTS = ["A", "B", "C", "Msg", "Zed", "a1", "Foo2", "Foo10", "Fo", "msg", "b", "zed"]  # incl. names that differ by letter case only (never with one version)
 
 
 def definitions(max_defs: int = 8, roots: int = 2, versions: bool = True, shorts: typing.Optional[typing.List[str]] = None, subs: typing.Optional[typing.List[str]] = None, min_roots: int = 1, min_defs: int = 1, same_name: bool = False) -> st.SearchStrategy:
@@ -41,6 +41,14 @@ def definitions(max_defs: int = 8, roots: int = 2, versions: bool = True, shorts
                 if twins:
                     d["root"], d["ns"], d["short"], d["legacy"] = e["root"], list(e["ns"]), e["short"], e["legacy"]
                     d["version"] = twins[len(raw) % len(twins)]
+            if alike == 2 and defs:
+                # a namesake of the previous definition up to letter case (with another version, or the key below would repeat):
+                # ns.Msg.2.0 next to ns.mSG.3.0 are two unrelated types
+                e = defs[-1]
+                twin_short = e["short"].swapcase()
+                if twin_short != e["short"]:
+                    v = list(d["version"]) if list(d["version"]) != list(e["version"]) else [e["version"][0], (e["version"][1] + 1) % 256 or 1]
+                    d["root"], d["ns"], d["short"], d["version"], d["legacy"] = e["root"], list(e["ns"]), twin_short, v, e["legacy"]
             key = (roots_[d["root"]]["name"], tuple(d["ns"]), d["short"].lower(), tuple(d["version"]))
             # (full name, version) is unique across the workspace, as the Specification demands
             if key in seen:
@@ -87,7 +95,7 @@ def definitions(max_defs: int = 8, roots: int = 2, versions: bool = True, shorts
             "size": st.integers(1, 4),
             "deprecated": st.just(False),
             "legacy": st.sampled_from([False, False, False, True]),
-            "alike": st.sampled_from([0, 0, 0, 1]) if versions else st.just(0),
+            "alike": st.sampled_from([0, 0, 0, 0, 1, 2]) if versions else st.just(0),
             "raw_refs": st.lists(
                 st.fixed_dictionaries({"to": st.integers(0, 20), "absolute": st.booleans(), "array": st.sampled_from([None, None, ["le", 2], ["fixed", 2]]), "expr": st.booleans()}), max_size=3
             ),
